@@ -191,8 +191,9 @@ impl Property for C18 {
             None => {
                 let long = rng.chance(1, 4);
                 let base = c06::gen(&mut rng, long);
-                let pats = ["d/", "e/", "/"];
-                let pat = pats[rng.below(3) as usize].to_string();
+                // one database's objects, every object, or one kind of object (metadata / keys / values / partitions)
+                let pats = ["d/", "d2/", "/", "nun.metadata", "nun.keys", "nun.values", ".nun"];
+                let pat = pats[rng.below(pats.len() as u64) as usize].to_string();
                 let fault = match scenario {
                     "put-fails-once" => Fault::PutFailsOnce { pat, attempt: rng.range(1, 3) as u32 },
                     "put-fails-always" => Fault::PutFailsAlways { pat: "d/".into() },
